@@ -227,6 +227,12 @@ def _calib_run(d, argv, T, P, env, ignore=()):
 POSITIONAL = list(' -~.#@+!=')     # characters whose meaning depends on the position
 
 
+# names shaped like the variable / escape syntax of the tools themselves (template-style file
+# names such as ${name}.conf.in exist in real projects); always part of both tiers
+SHAPED = ['${v}x', 'a${b', '$v.in', 'n$$m', 'x$', '$', '$ x', '$:x', '$(v)x', 'a$(b', '#{v}', '@v@',
+          'a=b=c', 'x  y', ' x ', 'a;b&c', '{a,b}', '--', '-', '~', '~x~', '!x!', 'a^b', 'a|b']
+
+
 def names_for(tier, rng):
     out = []
     for c in SPECIALS:
@@ -245,8 +251,8 @@ def names_for(tier, rng):
             continue
         rnd.append(n)
     if tier == 'quick':
-        return out + rng.sample(combos, 12) + rnd[:6]
-    return out + rng.sample(combos, 500) + rnd[:300]
+        return out + SHAPED + rng.sample(combos, 12) + rnd[:6]
+    return out + SHAPED + rng.sample(combos, 500) + rnd[:300]
 
 
 def cases(tier, seed):
@@ -255,7 +261,9 @@ def cases(tier, seed):
     seen = set()
     for n in names_for(tier, rng):
         if n not in seen and '/' not in n and '\\' not in n and '\0' not in n and \
-           not re.match(r'^.:', n) and n not in ('.', '..'):
+           not re.match(r'^.:', n) and n not in ('.', '..', '~'):
+            # ('~': a path string starting with '~/' is the home directory to bfg9000 -
+            # os.path.expanduser by design -, so a directory named '~' is outside the quantifier)
             seen.add(n)
             names.append(n)
     # one name per project: a failing name can then neither hide nor implicate
